@@ -74,11 +74,40 @@ class Check:
         if closed < self.obligations:
             self.broken_obligations.append({'obligation': 'fewer closed Print Assumptions (%d) than theorems (%d)' % (closed, self.obligations)})
             return False
+        if self.tier == 'thorough' and not self.coqchk():
+            return False
         # source hygiene: no admits anywhere
         bad = subprocess.run("grep -rnE '\\b(Admitted|admit|Axiom|Parameter|Conjecture|Unset Guard|bypass_check|type-in-type)\\b' --include=*.v %s/coq | grep -v '^[^:]*:[0-9]*: *(\\*' | head -5" % VERIF,
                              shell=True, capture_output=True, text=True).stdout.strip()
         if bad:
             self.broken_obligations.append({'obligation': 'forbidden vernacular found', 'where': bad})
+            return False
+        return True
+
+    def coqchk(self):
+        """Thorough tier: re-check the compiled property file and everything it depends on with the
+        independent checker; cached per build key (the .vo files do not change until the key does)."""
+        try:
+            key = open(os.path.join(BUILD, '.stamp')).read().strip()
+        except OSError:
+            key = 'nokey'
+        d = os.path.join(BUILD, 'coqchk'); os.makedirs(d, exist_ok=True)
+        f = os.path.join(d, '%s.%s.txt' % (self.pid, key[:16]))
+        if not os.path.exists(f):
+            cmd = ['coqchk', '-silent', '-o', '-Q', 'Gen', 'Gen', '-Q', 'Model', 'Model', '-Q', 'Spec', 'Spec', '-Q', 'Proofs', 'Proofs',
+                   '-Q', 'Properties', 'Properties', 'Properties.' + self.pid]
+            try:
+                p = subprocess.run(cmd, cwd=os.path.join(VERIF, 'coq'), capture_output=True, text=True, timeout=3400)
+                out = p.stdout + p.stderr + '\nEXIT %d\n' % p.returncode
+            except subprocess.TimeoutExpired:
+                out = 'TIMEOUT\nEXIT 124\n'
+            open(f, 'w').write(out)
+        out = open(f).read()
+        ok = ('EXIT 0' in out and re.search(r'\* Axioms: <none>', out) and re.search(r'type-in-type: <none>', out)
+              and re.search(r'unsafe \(co\)fixpoints: <none>', out) and re.search(r'positivity is assumed: <none>', out))
+        self.coqchk_summary = ' | '.join(l.strip() for l in out.splitlines() if l.strip().startswith('*'))[:600]
+        if not ok:
+            self.broken_obligations.append({'obligation': 'coqchk Properties.%s' % self.pid, 'output': out[-1500:]})
             return False
         return True
 
@@ -146,6 +175,7 @@ class Check:
             'assumptions': self.assumptions, 'wall_s': round(wall, 2), 'violations': len(real) + (1 if rc and not real else 0),
         }
         if self.exhaustive is not None: ev['coverage']['exhaustive'] = self.exhaustive
+        if getattr(self, 'coqchk_summary', None): ev['coverage']['coqchk'] = self.coqchk_summary
         json.dump(ev, open(os.path.join(VERIF, 'evidence', self.pid + '.json'), 'w'), indent=1, default=str)
         for l in lines: print(l)
         print('check %s tier=%s seed=%d: obligations %d/%d, evaluations %d, nontrivial %d, disagreements %d, oracle failures %d (known %d), %.1fs -> %s'
